@@ -58,3 +58,16 @@ def unold(node_or_text):
                 return n.args[0]
             return n
     return u(U().visit(node))
+
+
+def arg_of(ctx, call: ast.Call, name: str, module, cls=None):
+    """the argument bound to parameter `name` of a (canonical-layout) call, by keyword or by the callee's position"""
+    for k in call.keywords:
+        if k.arg == name:
+            return k.value
+    sig = ctx.canon._callee_sig(call, module, cls)
+    if sig is not None and name in sig[0]:
+        i = sig[0].index(name)
+        if i < len(call.args) and not any(isinstance(a, ast.Starred) for a in call.args[: i + 1]):
+            return call.args[i]
+    return None
